@@ -67,3 +67,16 @@ contract(H + "send_event_time", ["C07", "C11"], model="R", params={"in_states": 
              "same(result, self._event_time)"],
          native_search=False,
          note="C07.2 / C11.3: a cell-boundary event happens exactly when the unit reaches the neighbouring cell")
+
+contract(H + "send_out_state", ["C07", "C11"], model="R", returns="opt[list[Node]]",
+         requires=["self._relevant_unit is not None", "len(self._relevant_unit.position) == 3", "0 <= self._direction < 3",
+                   "self._state is not None"],
+         modifies=["allcontents(float)", "ALL._quotient", "ALL._remainder"],
+         ensures=[
+             # the unit is put exactly ON the boundary computed by send_event_time (no rounding residue keeps it in the
+             # old cell), in the recorded direction only
+             "self._relevant_unit.position[self._direction] == self._boundary",
+             "same(result, self._state)"],
+         canary="self._boundary == 0", native_search=False,
+         note="C11.3: after a cell-boundary event the coordinate equals the neighbouring cell's boundary; everything else "
+              "is time slicing (interface: _time_slice_unit on every unit of the in-state, verified separately)")
